@@ -145,7 +145,7 @@ func TestC16_P_WriteOrderAndFaults(t *testing.T) {
 			}
 			// the value of the injected error: plain, or wrapping a well-known value (io.EOF, fs.ErrNotExist, ...) that
 			// builder code may give a meaning of its own in other places - a storage failure must stay a failure
-			faultKind := genFaultKind(t)
+			faultKind := genWriteFaultKind(t)
 			for k := 1; k <= n; k++ {
 				for stage := 0; stage < 4; stage++ {
 					st := NewStore()
@@ -180,7 +180,7 @@ func TestC16_P_WriteOrderAndFaults(t *testing.T) {
 					} else if k == 1 {
 						pos = "first"
 					}
-					ev.Case(fmt.Sprintf("%s blocks=%s %s@%s %s", kind, bucket(n), stageName, pos, faultKinds[faultKind].Name), true, "fault:"+stageName, "faultpos:"+pos, "faultvalue:"+faultKinds[faultKind].Name)
+					ev.Case(fmt.Sprintf("%s blocks=%s %s@%s %s", kind, bucket(n), stageName, pos, faultKindName(faultKind)), true, "fault:"+stageName, "faultpos:"+pos, "faultvalue:"+faultKindName(faultKind))
 				}
 			}
 			ev.Sample(map[string]any{"build": b.desc, "write_opens": n, "faulted_builds": 4 * n, "levels": levels})
@@ -449,4 +449,88 @@ func TestC16_R_QuickBuilderRetryAfterFailedWrite(t *testing.T) {
 			}
 		}
 	}
+}
+
+const c16SplitRule = "case = a build (file of a drawn shape, or sharded / plain directory) through a link system whose READ side is another store that already holds some or all of the blocks the build produces (an older version of the same content) while its WRITE side is a fresh store; " +
+	"oracle = everything reachable from the returned link that the build produces is in the WRITE store (no dangling link), committed children-first; every case non-trivial; distinct by (kind, overlap class)"
+
+// TestC16_P_SplitReadWriteStores: what a link system can READ says nothing about what has been written to where it WRITES.
+func TestC16_P_SplitReadWriteStores(t *testing.T) {
+	ev := newEvid(t, c16SplitRule)
+	rapid.Check(t, func(t *rapid.T) {
+		kind := rapid.SampledFrom([]string{"file", "file", "sharded", "plain"}).Draw(t, "kind")
+		upstream, target := NewStore(), NewStore()
+		ext := map[cid.Cid]bool{}
+		var buildInto func(st *Store, ls *ipld.LinkSystem, version int) (datamodel.Link, error)
+		if kind == "file" {
+			w := rapid.IntRange(2, 4).Draw(t, "w")
+			cs := rapid.IntRange(1, 9).Draw(t, "cs")
+			n := rapid.IntRange(1, 120).Draw(t, "len")
+			content := fillContent(t, n, cs)
+			changed := append([]byte(nil), content...)
+			if rapid.Bool().Draw(t, "changeTail") {
+				changed[len(changed)-1] ^= 0x55
+			}
+			buildInto = func(st *Store, ls *ipld.LinkSystem, version int) (l datamodel.Link, err error) {
+				data := content
+				if version == 2 {
+					data = changed
+				}
+				withWidth(w, func() { l, _, err = builder.BuildUnixFSFile(bytes.NewReader(data), fmt.Sprintf("size-%d", cs), ls) })
+				return
+			}
+		} else {
+			names, _ := genNames(t, nameOpts{Max: 60})
+			fanout := rapid.SampledFrom([]int{8, 16, 256}).Draw(t, "fanout")
+			es := make([]entrySpec, len(names))
+			for i, n := range names {
+				es[i] = entryFor(n, 1)
+				ext[es[i].Cid] = true
+			}
+			extra := append(append([]entrySpec{}, es...), entryFor("one-more-entry", 1))
+			ext[extra[len(extra)-1].Cid] = true
+			withExtra := rapid.Bool().Draw(t, "addEntry")
+			buildInto = func(st *Store, ls *ipld.LinkSystem, version int) (datamodel.Link, error) {
+				e := es
+				if version == 2 && withExtra {
+					e = extra
+				}
+				var l datamodel.Link
+				var err error
+				if kind == "sharded" {
+					l, _, err = builder.BuildUnixFSShardedDirectory(fanout, 0x22, pbEntries(e), ls)
+				} else {
+					l, _, err = builder.BuildUnixFSDirectory(pbEntries(e), ls)
+				}
+				return l, err
+			}
+		}
+		if _, err := buildInto(upstream, upstream.LinkSystem(), 1); err != nil {
+			t.Fatalf("harness: %v", err)
+		}
+		ls := target.LinkSystem()
+		ls.StorageReadOpener = upstream.openRead // reads come from upstream, writes go to target
+		var link datamodel.Link
+		var err error
+		must(t, "build with split stores", func() { link, err = buildInto(target, ls, 2) })
+		if err != nil || link == nil {
+			t.Fatalf("C16 split stores (%s): build failed: link=%v err=%v", kind, link, err)
+		}
+		_, dangling := target.Reachable(cidOf(link))
+		for _, d := range dangling {
+			if !ext[d] {
+				_, inUpstream := upstream.Get(d)
+				t.Fatalf("C16 (%s): built through a link system that reads from another store (which already held block %s: %v) and writes to a fresh one: the returned link %s has block %s of its DAG missing from the store it was written to", kind, d, inUpstream, link, d)
+			}
+		}
+		produced := map[cid.Cid]bool{}
+		for c := range target.Blocks {
+			produced[c] = true
+		}
+		if err := commitOrderOK(target, produced); err != nil {
+			t.Fatalf("C16 split stores (%s): %v", kind, err)
+		}
+		ev.Case(fmt.Sprintf("%s blocks=%s", kind, bucket(target.Len())), true, "kind:"+kind)
+		ev.Sample(map[string]any{"kind": kind, "blocks_written": target.Len(), "blocks_upstream": upstream.Len()})
+	})
 }
